@@ -7,6 +7,8 @@ Functions under contract (all obligations generated from the source in the tree 
                                                    for exactly the inside rows in order; answer shape follows the query shape
     BolfiPosterior.__init__ x4                     self.threshold = the given threshold for every value (0 / 0.0 included); minimiser iff None
     BolfiPosterior.logpdf x2, pdf x2               extended reals: log-likelihood + log prior inside, -inf outside; pdf = exp(logpdf), 0 outside
+      (spec table: norm.logcdf / norm.cdf / scipy.special.ndtr / log_ndtr under whatever name the module imports them, np.log of a cdf value:
+       log(Phi(z)) = logPhi(z) OVER THE REALS ONLY - the float difference in the tails is the business of the tail stand-in)
   SMT tier, surrogate state machine (contracts/c10_gp.py):
     GPyRegression.predict / predictive_gradients   cached algebra iff is_sampling and _kernel_is_default, cache refreshed first iff not marked
                                                    valid, cached fields read only while valid (INV), otherwise the GP library answers
@@ -15,10 +17,17 @@ Functions under contract (all obligations generated from the source in the tree 
     GPyRegression.update x4, optimize x2           evidence X' = X ++ x, Y' = Y ++ y in order; INV re-established [F13]; a LinAlgError of the GP
                                                    optimiser is absorbed (no exception escapes, cache stale, evidence intact)
     GPyRegression.__init__ rejects x3              the three ValueError branches
+    whole-state clause (predict x3, predictive_gradients x2, update x4, optimize x2): the attributes of self the fast path READS are taken from
+                                                   the real class in the tree (AST scan of predict / predictive_gradients and the methods they call); each
+                                                   must be _gp, a flag, configuration, a cached field (anything _cache_RBF_kernel assigns: read only while
+                                                   INV holds) or a memo attribute with ghost origin, INV2: reset or computed from the current _gp at its
+                                                   current hyper-parameters - required by the readers, re-established by update / optimize; memo reads taint
   CAS tier (contracts/c10_cas.py; sympy, all real values at the listed concrete shapes):
     BolfiPosterior._gradient_unnormalized_loglikelihood x6   grad = d/dx logPhi((h - mu(x))/sqrt(v(x))), mu, v undefined functions; 0 outside
     GPyRegression.predict / predictive_gradients fast path x8  = textbook single-query GP mean / variance / gradients (n_evidence 2-3, dim 1-2)
-  Bounded stand-in / replay vehicle: bounded/c10.py (native GPy: fast vs GPy's own answers, posterior oracle, central differences)."""
+  Bounded stand-ins / replay vehicle: bounded/c10.py (native GPy): random scripts (fast vs GPy's own answers, posterior oracle, central differences);
+    history on ONE surrogate (every operation x every API, first query after the operation at the point queried last before it);
+    log density in the tails (z from -1000 to 40, oracle scipy.special.log_ndtr, relative tolerance)."""
 MANIFEST = {
     'category': 'proof',
     'text': 'The bounds mask, the masked scatter of logPhi((threshold - mean)/sqrt(var)) with -inf outside the (closed) bounds, logpdf = that + log prior '
@@ -29,15 +38,22 @@ MANIFEST = {
             'their derivatives, for all real values at the listed concrete shapes. Cache validity is a representation invariant '
             '(_rbf_is_cached => cached fields computed from the current _gp and its current hyper-parameters) that every reader relies on and every '
             'writer of _gp (__init__, _init_gp, update, optimize) must re-establish; update also carries the evidence-order clause '
-            '(X\' = X ++ x, Y\' = Y ++ y). A seeded native comparison with GPy on the real code is the labelled bounded stand-in and replay vehicle.',
+            '(X\' = X ++ x, Y\' = Y ++ y). The invariant is a whole-state clause: the set of attributes the fast path reads is taken from the real class in '
+            'the tree, and an attribute that is neither documented state nor a cached field (a memo an edit adds) must be reset or recomputed from the '
+            'current GP by update and optimize (ghost origin; reads are marked over-approximated, so a refutation needs a native failing history). '
+            'Seeded native comparisons with GPy on the real code are the labelled bounded stand-ins and replay vehicle: random scripts, a history of every '
+            '(operation x API) pair on one surrogate with re-visited query points, and the log density far in both tails (z = -1000 .. 40) against '
+            'scipy.special.log_ndtr with a relative tolerance.',
     'note': 'CAS identities hold at the listed shapes only (1-2 query rows, dim 1-2; n_evidence 2-3, single query row). That GPy\'s own predict / '
             'predictive_gradients compute the textbook quantities, GPRegression(X, Y).X == X, the Param shapes, woodbury_inv = (chol chol^T)^-1 and '
             'scipy.stats.norm are assumed contracts (sanity-tested each run); numerical equality with GPy for hyper-parameters reached by optimisation '
             'is NOT proved (bounded stand-in only). The fast path is specified for a single query row (as used during sampling). Prior log density '
-            'assumed in [-inf, +inf). Floats read as reals; IEEE tags only for -inf/+inf/nan.',
+            'assumed in [-inf, +inf). Floats read as reals in the proof tiers (log(cdf) and logcdf are the same function there); IEEE tags only for '
+            '-inf/+inf/nan; the double-precision behaviour of the log density in the tails is bounded-only, that of the gradient below z = -30 is not checked.',
     'technique': 'deductive: loop-invariant and path-wise VCs from the real AST (pyvc, z3/cvc5), ghost-state representation invariant over stub objects '
                  '+ computer algebra on the extracted expressions (sympy); bounded stand-in: seeded native scripts (update / optimize / is_sampling '
-                 'interleavings, dims 1-3) against GPy and an independent posterior oracle',
+                 'interleavings, dims 1-3; one-surrogate histories with re-visited points; thresholds placed at z = -1000 .. 40) against GPy and an independent '
+                 'posterior oracle (scipy.special.log_ndtr)',
 }
 
 from contracts import c10_post, c10_gp, c10_cas
@@ -50,6 +66,11 @@ TRUSTED_BASE = [
     'pyvc.extreal IEEE tag tables for + and exp on -inf/+inf/nan (sanity-tested against numpy)',
     'numpy: reshape((-1, c)) of an (n, c) array is the array, of a (c,) array the (1, c) row; np.r_[A, B] = concatenation along axis 0 (sanity-tested)',
     'scipy.stats.norm: logcdf(x, loc, scale) = log cdf((x - loc)/scale) with numpy broadcasting, pdf / cdf closed forms (sanity-tested)',
+    'scipy.special.ndtr = norm.cdf, log_ndtr = norm.logcdf; logPhi is DEFINED as log o Phi, so np.log(ndtr(z)), np.log(norm.cdf(..)), log_ndtr(z) and '
+    'norm.logcdf(..) are one spec function OVER THE REALS ONLY (sanity-tested for |z| <= 30; ndtr(-40) == 0.0 while log_ndtr(-40) is finite is sanity-tested '
+    'too: the reason the tail stand-in exists)',
+    'the AST scan that decides which attributes of self the fast path reads (loads from `self` in predict / predictive_gradients and the methods of the '
+    'class they call; getattr/setattr/vars on self makes the whole-state clause fail closed)',
     'real sqrt: v > 0 => sqrt(v) > 0',
     'GPy (assumed, sanity-tested on a random instance each run): GPRegression(X, Y).X == X and .Y == Y; kern.rbf.variance, kern.rbf.lengthscale, '
     'likelihood.variance are 1-element 1-D arrays; kern.bias.K(X) is constant = bias.variance; posterior.woodbury_inv = (woodbury_chol woodbury_chol^T)^-1; '
@@ -59,7 +80,8 @@ TRUSTED_BASE = [
     'the hyper-parameters in any state',
 ]
 ASSUMPTIONS = [
-    'A-REAL: floats are mathematical reals (log Phi of a finite argument is finite; no underflow to -inf inside the bounds)',
+    'A-REAL (proof tiers only): floats are mathematical reals (log Phi of a finite argument is finite; log(cdf) = logcdf). The float behaviour of the log '
+    'density inside the bounds is covered by the bounded tail stand-in for z = (threshold - mean)/sd between -1000 and 40',
     'A-INT: integers are mathematical', 'A-LOG: logging calls have no effect',
     'the surrogate\'s noisy predictive variance is > 0',
     'the prior log density takes values in [-inf, +inf) (never +inf / nan: -inf + inf would be nan outside the bounds) and follows the answer-shape '
@@ -71,7 +93,16 @@ ASSUMPTIONS = [
 NOT_PROVED = [
     'returns the same means, variances and gradients as the underlying Gaussian-process library: only the identity with the textbook GP formulas is '
     'proved (CAS, listed shapes); that GPy computes those quantities is an assumed contract, checked numerically in the bounded stand-in',
-    'kernel hyper-parameters reached by optimisation: numerical equality with GPy after optimize() is bounded only (max_opt_iters <= 5)',
+    'kernel hyper-parameters reached by optimisation: numerical equality with GPy after optimize() is bounded only (random scripts: max_opt_iters <= 5; '
+    'history on one surrogate: 25-30 optimisations of 12 iterations with growing evidence, each followed first by the point queried last before it; '
+    'tail stand-in: 60 iterations). That no state OTHER than the flag-guarded cache survives update / optimize is proved (whole-state clause) for the '
+    'attributes the AST scan finds; state hidden outside self (module globals, closures, the GPy object) is bounded only',
+    'inside the bounds the log density equals log Phi(..) + log prior IN DOUBLE PRECISION: bounded only (tail stand-in, z in [-1000, 40], dims 1-2, relative '
+    'tolerance 1e-9 slow path / 1e-4 fast path); the proof tiers read floats as reals',
+    'its gradient is the derivative of that log density IN DOUBLE PRECISION for z < -30: not checked. On the unchanged tree '
+    '_gradient_unnormalized_loglikelihood evaluates pdf(z)/cdf(z), which is 0/0 = nan for z < about -38.6 and -inf around z = -38 at in-bounds points where '
+    'the derivative is finite (reported to the lead as a defect with a one-line repair: exp(norm.logpdf(z) - norm.logcdf(z))); bounded/c10.py '
+    'GRAD_TAIL_ZMIN = -30 is the only thing that keeps it out of the tail stand-in',
     'its gradient is the derivative of that log density: proved for the likelihood term at the listed shapes (CAS); the prior\'s gradient_logpdf is a '
     'numerical gradient outside this property (C08); scatter of gradient rows for n > 2 rows is bounded only',
 ]
@@ -107,6 +138,15 @@ def sanity():
     t = np.linspace(-3, 3, 7)
     from scipy.special import erf
     out.append(('scipy: norm.pdf / cdf closed forms', bool(np.allclose(ss.norm.pdf(t), np.exp(-t ** 2 / 2) / np.sqrt(2 * np.pi)) and np.allclose(ss.norm.cdf(t), (1 + erf(t / np.sqrt(2))) / 2))))
+    from scipy.special import ndtr, log_ndtr
+    tt = np.linspace(-30, 8, 77)
+    with np.errstate(all='ignore'):
+        out.append(('scipy: ndtr = norm.cdf, log_ndtr = norm.logcdf = log(ndtr) for -30 <= z <= 8 (relative 1e-10 + absolute 1e-15)',
+                    bool(np.allclose(ndtr(tt), ss.norm.cdf(tt), rtol=1e-12, atol=0) and np.allclose(log_ndtr(tt), ss.norm.logcdf(tt), rtol=1e-12, atol=0) and
+                         np.allclose(np.log(ndtr(tt)), log_ndtr(tt), rtol=1e-10, atol=1e-15))))
+        out.append(('scipy: ndtr(-40) underflows to 0.0 while log_ndtr(-40) is finite (-804.6...): log(cdf) = logcdf holds over the reals only',
+                    bool(ndtr(-40.0) == 0.0 and np.isfinite(log_ndtr(-40.0)) and abs(log_ndtr(-40.0) + 804.608442013754) < 1e-6 and
+                         np.isfinite(ss.norm.logcdf(-1000.0)))))
     z = np.zeros(3)
     z[np.array([False, True, False])] = ss.norm.logcdf(h, mu[:1], sd[:1]).squeeze()          # 0-d value broadcast into a 1-element mask assignment
     out.append(('numpy: squeeze of a (1, 1) array is 0-d and assigns into a one-True mask', bool(z[1] == lc[0, 0] and ss.norm.logcdf(h, mu[:1], sd[:1]).squeeze().ndim == 0)))
@@ -148,7 +188,7 @@ def sanity():
 
 def bounded(tier, seed):
     from bounded import c10 as b
-    return [b.run(tier, seed)]
+    return [b.run(tier, seed), b.run_history(tier, seed), b.run_tails(tier, seed)]
 
 
 _replay_cache = {}
@@ -178,6 +218,15 @@ def replay_refuted(cname, rf):
             _replay_cache[key] = None if f is None else dict(found=True, input=dict(script=script, shim=shim), observed=f['what'], signature=f['signature'])
         if _replay_cache[key] is not None:
             return _replay_cache[key]
+    if cname.startswith('GPyRegression.') and 'history' not in _replay_cache:
+        # one surrogate driven through every (operation x API) pair: memo / cache state that survives an operation
+        r = b.run_history('quick', 0)
+        _replay_cache['history'] = None
+        if r['failures']:
+            f = r['failures'][0]
+            _replay_cache['history'] = dict(found=True, input=f['input'], observed=f['what'], signature=f['signature'])
+    if cname.startswith('GPyRegression.') and _replay_cache.get('history') is not None:
+        return _replay_cache['history']
     if 'search' not in _replay_cache:
         r = b.run('quick', 0)
         if r['failures']:
